@@ -232,6 +232,54 @@ def local_memos(run, rule, mi, name, fn):
     return n
 
 
+def _array_evidence(fn, p):
+    """the parameter is used as an ndarray whose *contents* matter: reductions, indexing, matrix products"""
+    for n in ast.walk(fn):
+        if isinstance(n, ast.Call) and (dotted(n.func) or '').startswith(('np.', 'numpy.')) and any(isinstance(a, ast.Name) and a.id == p for a in n.args):
+            return True
+        if isinstance(n, ast.Subscript) and isinstance(n.value, ast.Name) and n.value.id == p:
+            return True
+        if isinstance(n, ast.BinOp) and isinstance(n.op, ast.MatMult) and any(isinstance(x, ast.Name) and x.id == p for x in (n.left, n.right)):
+            return True
+        if isinstance(n, ast.Attribute) and isinstance(n.value, ast.Name) and n.value.id == p and n.attr in ('shape', 'T', 'sum', 'dot', 'size'):
+            return True
+    return False
+
+
+def last_call_memos(run, rule, mi, name, fn):
+    """'global _last, _value; if arg is not _last: _value = f(arg); _last = arg' -- a one-entry memo keyed by the *identity* of an array:
+    the array can be edited in place between two calls, the identity stays, the memoised value is stale."""
+    gl = {n for st in ast.walk(fn) if isinstance(st, ast.Global) for n in st.names}
+    if not gl:
+        return 0
+    params = set(params_of(fn)) - {'self', 'cls'}
+    n = 0
+    for iff in ast.walk(fn):
+        if not (isinstance(iff, ast.If) and isinstance(iff.test, ast.Compare) and len(iff.test.ops) == 1 and isinstance(iff.test.ops[0], (ast.Is, ast.IsNot))):
+            continue
+        l, r = iff.test.left, iff.test.comparators[0]
+        pair = [(a, b) for a, b in ((l, r), (r, l)) if isinstance(a, ast.Name) and a.id in params and isinstance(b, ast.Name) and b.id in gl]
+        if not pair:
+            continue
+        p, g = pair[0][0].id, pair[0][1].id
+        arm = iff.body if isinstance(iff.test.ops[0], ast.IsNot) else iff.orelse
+        keeps = [st for st in arm if isinstance(st, ast.Assign) and any(isinstance(t, ast.Name) and t.id == g for t in st.targets) and norm(st.value) == p]
+        vals = [st for st in arm if isinstance(st, ast.Assign) and any(isinstance(t, ast.Name) and t.id in gl and t.id != g for t in st.targets)
+                and any(isinstance(x, ast.Name) and x.id == p for x in ast.walk(st.value))]
+        if not keeps or not vals:
+            continue
+        n += 1
+        run.subject(rule)
+        if _array_evidence(fn, p):
+            run.fail(rule, '%s|%s|identity-memo:%s' % (mi.name, name, g), mi.relpath, iff.lineno,
+                     "%s keeps %s computed from the contents of '%s' in module-level state and reuses it while the same object is passed again "
+                     "(%s): an array edited in place between two calls keeps its identity, so the result is computed from its old contents"
+                     % (name, [norm(t) for st in vals for t in st.targets], p, norm(iff.test)))
+        else:
+            run.undecided(rule, '%s last-call memo on %s' % (name, p), 'no evidence that the argument is a mutable array')
+    return n
+
+
 def check_caches(run, modules, rule, functions=None):
     """modules: iterable of ModuleInfo. Reports stores into shared containers whose key misses a dependency."""
     run.describe(rule, 'values cached in module-level or instance-held containers are keyed by every parameter they depend on, at the '
@@ -260,6 +308,7 @@ def check_caches(run, modules, rule, functions=None):
             if functions is not None and name not in functions:
                 continue
             nstores += local_memos(run, rule, mi, name, fn)
+            nstores += last_call_memos(run, rule, mi, name, fn)
             if not containers and not inst:
                 continue
             params = set(params_of(fn)) - {'self', 'cls'}
